@@ -5,6 +5,7 @@ int main(int argc, char** argv) {
     if (argc < 2) { std::fprintf(stderr, "usage: harness <layer>\n"); return 2; }
     std::string layer = argv[1];
     if (layer == "enc") return vh::run_enc(argc - 2, argv + 2);
+    if (layer == "ts") return vh::run_ts(argc - 2, argv + 2);
     std::fprintf(stderr, "unknown layer %s\n", layer.c_str());
     return 2;
 }
